@@ -20,6 +20,7 @@ import (
 	"strings"
 	"sync"
 	"testing"
+	"time"
 
 	"github.com/gagliardetto/solana-go"
 	"github.com/ipfs/go-cid"
@@ -982,6 +983,90 @@ func TestVerifC03(t *testing.T) {
 					c2 := w.grpcGetTransaction(multi, as.sig, id)
 					c1.Alias, c2.Alias = as.alias, as.alias
 					o.Calls = append(o.Calls, c1, c2)
+				}
+			}
+			// concurrent phase: an aliasing absent key is requested WHILE the stored key it aliases is being served (both
+			// resolve to the same index entry / CID / CAR location, so anything that shares work between concurrent requests
+			// by location sees them as one). The first answer that is not a clean "not found" is kept, else the last one.
+			race := func(stored func(), absentCall func() rpcCall) rpcCall {
+				stop := make(chan struct{})
+				var wg sync.WaitGroup
+				for g := 0; g < 3; g++ {
+					wg.Add(1)
+					go func() {
+						defer wg.Done()
+						for {
+							select {
+							case <-stop:
+								return
+							default:
+								stored()
+							}
+						}
+					}()
+				}
+				var keep rpcCall
+				deadline := time.Now().Add(120 * time.Millisecond)
+				for time.Now().Before(deadline) {
+					keep = absentCall()
+					if keep.Status == "ok" || keep.Status == "panic" {
+						break
+					}
+				}
+				close(stop)
+				wg.Wait()
+				return keep
+			}
+			for k, as := range absent {
+				if !as.alias {
+					continue
+				}
+				// the stored transaction the absent signature aliases, in a loaded epoch
+				for _, i := range sub {
+					idx, err := OpenIndex_SigToCid(w.eps[i].paths.SignatureToCid)
+					if err != nil {
+						continue
+					}
+					got, err := idx.Get(as.sig)
+					idx.Close()
+					if err != nil {
+						continue
+					}
+					for _, tt := range w.eps[i].built.TxBySig {
+						if tt.Cid.Equals(got) {
+							st := tt
+							c := race(func() { w.grpcGetTransaction(multi, st.Sig, st.Spec.SigID) },
+								func() rpcCall { return w.grpcGetTransaction(multi, as.sig, 1_000_000+k) })
+							c.Alias = true
+							c.Detail = "concurrent with the aliased stored signature; " + c.Detail
+							o.Calls = append(o.Calls, c)
+						}
+					}
+				}
+			}
+			for _, as := range absentSlots {
+				if !as.alias {
+					continue
+				}
+				for _, i := range sub {
+					idx, err := OpenIndex_SlotToCid(w.eps[i].paths.SlotToCid)
+					if err != nil {
+						continue
+					}
+					got, err := idx.Get(as.slot)
+					idx.Close()
+					if err != nil {
+						continue
+					}
+					for _, bt := range w.eps[i].built.Blocks {
+						if bt.Cid.Equals(got) {
+							st := bt
+							c := race(func() { w.grpcGetBlock(multi, st.Spec.Slot) }, func() rpcCall { return w.grpcGetBlock(multi, as.slot) })
+							c.Alias = true
+							c.Detail = "concurrent with the aliased stored slot; " + c.Detail
+							o.Calls = append(o.Calls, c)
+						}
+					}
 				}
 			}
 			out.Emit(o)
